@@ -126,6 +126,8 @@ def histogram(res, case, obs):
     if k == 'csi':
         res.count('csi/geometry/%s' % ('default' if (case['ms'], case['dp']) == (14, 5) else 'other'))
     res.count('strategy/' + case.get('strat', '-').split(':')[0])
+    if k == 'bai':
+        res.count('bai/query-time MergeStrategy/' + case.get('qstrat', 'nil').split(':')[0])
     for e in obs.get('adderr', []):
         if e:
             res.count('%s/adderror/%d' % (k, e))
@@ -217,7 +219,7 @@ ASSUME = [
 CLAIM = dict(
     text='Machine-checked proof (Coq 8.16.1) over an executable model of internal.Index / csi.Index / tabix.Index (Add with all exits, sort, Chunks with the tile-pruning loop, MergeChunks, the four strategies): '
          'for every coordinate-sorted in-range record list with a monotone chunk layout, Add never fails or panics and every query returns a chunk covering each overlapping record; error/empty answers imply no overlap. '
-         'BAI: also in every state reached by sort / queries / MergeChunks with a covering strategy and after the byte-level WriteIndex/ReadIndex round trip (bai_complete, bai_complete_merged, strategies_cover, bai_complete_after_write_read); '
+         'BAI: also in every state reached by sort / queries / MergeChunks with a covering strategy and after the byte-level WriteIndex/ReadIndex round trip (bai_complete, bai_complete_merged, strategies_cover, bai_complete_public for the query-time MergeStrategy, bai_complete_after_write_read); '
          'CSI for every geometry with depth <= 10, minShift+3*depth <= 62 and tabix: built index and all sort/query/merge states (csi_complete, csi_complete_merged, csi_complete_after_write_read, tabix_complete, tabix_complete_after_write_read); Add never fails under exactly sorted / in range / monotone layout (bai_add_never_fails, csi_add_never_fails). '
          'Bin containment is C16\'s theorem transported to this model; no premises, no axioms. The model is evaluated inside Coq against the implementation on every generated case; a brute-force overlap oracle (plus bam.Iterator over a real BAM) judges the implementation.',
     note='Trusted: Coq kernel, the hand-written model (validated by correspondence each run), harness/generators/oracle.',
